@@ -10,6 +10,7 @@ import (
 	"flag"
 	"fmt"
 	"os"
+	"runtime/debug"
 	"strings"
 )
 
@@ -68,7 +69,19 @@ func main() {
 			panic(err)
 		}
 		e := &emitter{ops: bufio.NewWriterSize(of, 1<<20), classes: bufio.NewWriterSize(cf, 1<<20), twinImpl: *prop == "C01"}
-		g(e, &rng{s: *seed*0x9e3779b97f4a7c15 + 0x1234567}, *tier == "thorough")
+		func() {
+			// generators call the library to build inputs (encode a payload, sign, derive ...): a panic there IS a
+			// panic of the real code on a generated input, reported as such (exit 3) with the stack
+			defer func() {
+				if p := recover(); p != nil {
+					e.ops.Flush()
+					e.classes.Flush()
+					fmt.Fprintf(os.Stderr, "LIBRARY-PANIC while generating inputs for %s (seed %d, tier %s): %v\n%s\n", *prop, *seed, *tier, p, debug.Stack())
+					os.Exit(3)
+				}
+			}()
+			g(e, &rng{s: *seed*0x9e3779b97f4a7c15 + 0x1234567}, *tier == "thorough")
+		}()
 		e.ops.Flush()
 		e.classes.Flush()
 		of.Close()
@@ -82,6 +95,8 @@ func main() {
 			fmt.Fprintln(w, execOp(sc.Text()))
 		}
 		w.Flush()
+	case "nets":
+		fmt.Println(netsString())
 	case "mem":
 		os.Exit(runMem(os.Args[2:]))
 	case "conc":
